@@ -208,7 +208,10 @@ class Ctx:
             "coverage": cov, "assumptions": self.assumptions,
             "wall_s": round(time.time() - self.t0, 2), "violations": len(self.violations),
         }
-        path = os.path.join(EVID, self.prop + ".json")
+        # evidence/ holds records about /repo only; runs against scratch copies (--repo) go elsewhere
+        evdir = EVID if self.repo == "/repo" else os.path.join(BUILD, "evidence-scratch")
+        os.makedirs(evdir, exist_ok=True)
+        path = os.path.join(evdir, self.prop + ".json")
         tmp = path + ".tmp%d" % os.getpid()
         json.dump(ev, open(tmp, "w"), indent=1, default=str)
         os.replace(tmp, path)
